@@ -182,7 +182,9 @@ def check_producers(repo, model: FsmModel, pm: ProviderModel, rep):
     for (mname, line), f in sorted(all_sites.items()):
         if repo.is_helper(f):
             continue    # judged where it is inlined, with the conditions of the calling path
-        if (mname, line) not in sites:
+        if (mname, line) not in sites and not any(m_ == mname for m_, _l in sites):
+            # (an event of a function that was entered through a new helper carries the line of the helper's call: the function
+            # counts as reached when any of its appends was seen)
             rep.bad('C05.G3', 'dulprovider:DULServiceProvider.%s:append@unreached' % mname, f.loc(),
                     'an event is queued at line %d by code that is not reached from the constructor or the three producers' % line)
     for (name, line), d in sorted(sites.items()):
